@@ -1,7 +1,7 @@
 /-
   "Shape" lemmas: what exactly a successful `Server.put` / `Server.remove` changes.
 -/
-import TmVerif.Sched.InvCapOps
+import TmVerif.Sched.Reach
 
 namespace TmVerif.Sched
 
@@ -68,5 +68,100 @@ theorem serverRemove_shape {c c' : Cell} {sid aid : Nat} (h : serverRemove c sid
     have hid := app?_id ha
     subst hid
     exact ⟨a, s, ha, hs, by simpa using hin, rfl, rfl, rfl, rfl, rfl⟩
+
+
+/-! ### lookups after put / remove -/
+
+theorem app?_of_apps {c c' : Cell} {a' : App} (h : c'.apps = updApp c.apps a') (k : Nat) :
+    c'.app? k = (c.app? k).map (fun y => if y.id = a'.id then a' else y) := by
+  unfold Cell.app?; rw [h]; exact find?_map_upd (·.id) c.apps a' k
+
+theorem srv?_of_srvs {c c' : Cell} {s' : Srv} (h : c'.srvs = updSrv c.srvs s') (k : Nat) :
+    c'.srv? k = (c.srv? k).map (fun y => if y.id = s'.id then s' else y) := by
+  unfold Cell.srv?; rw [h]; exact find?_map_upd (·.id) c.srvs s' k
+
+theorem app?_upd_ne {c c' : Cell} {a' : App} (h : c'.apps = updApp c.apps a') {k : Nat} (hk : k ≠ a'.id) :
+    c'.app? k = c.app? k := by
+  rw [app?_of_apps h]
+  cases hx : c.app? k with
+  | none => rfl
+  | some y => simp [app?_id hx, hk]
+
+theorem app?_upd_self {c c' : Cell} {a a' : App} (h : c'.apps = updApp c.apps a') (ha : c.app? a'.id = some a) :
+    c'.app? a'.id = some a' := by
+  rw [app?_of_apps h, ha]; simp [app?_id ha]
+
+theorem serverRemove_app_self {c c' : Cell} {sid aid : Nat} (h : serverRemove c sid aid = .ok c') :
+    ∃ a, c.app? aid = some a ∧ c'.app? aid = some (removeRec a) := by
+  obtain ⟨a, s, ha, _, _, happs, _⟩ := serverRemove_shape h
+  refine ⟨a, ha, ?_⟩
+  have hid := app?_id ha
+  have : (removeRec a).id = aid := hid
+  rw [← this]; exact app?_upd_self happs (by rw [this]; exact ha)
+
+theorem serverRemove_app_ne {c c' : Cell} {sid aid x : Nat} (h : serverRemove c sid aid = .ok c') (hx : x ≠ aid) :
+    c'.app? x = c.app? x := by
+  obtain ⟨a, s, ha, _, _, happs, _⟩ := serverRemove_shape h
+  exact app?_upd_ne happs (by show x ≠ a.id; rw [app?_id ha]; exact hx)
+
+/-- `Server.remove` keeps every server's static data, state and `since`. -/
+theorem serverRemove_srv {c c' : Cell} {sid aid k : Nat} (h : serverRemove c sid aid = .ok c') :
+    ∀ s', c'.srv? k = some s' → ∃ s0, c.srv? k = some s0 ∧ s'.id = s0.id ∧ s'.label = s0.label ∧
+      s'.traits = s0.traits ∧ s'.state = s0.state ∧ s'.since = s0.since ∧ s'.validUntil = s0.validUntil ∧
+      s'.init = s0.init := by
+  obtain ⟨a, s, _, hs, _, _, hsrvs, _⟩ := serverRemove_shape h
+  intro s' hs'
+  rw [srv?_of_srvs hsrvs] at hs'
+  cases hk : c.srv? k with
+  | none => rw [hk] at hs'; cases hs'
+  | some s0 =>
+    rw [hk] at hs'
+    simp only [Option.map_some, Option.some.injEq] at hs'
+    refine ⟨s0, rfl, ?_⟩
+    by_cases e : s0.id = (removeSrv s a).id
+    · rw [if_pos e] at hs'; subst hs'
+      have : s0 = s := by
+        have h1 := srv?_id hk
+        have h2 := srv?_id hs
+        have e' : s0.id = s.id := e
+        have hkk : k = sid := by rw [← h1, e', h2]
+        subst hkk; rw [hk] at hs; exact Option.some.inj hs
+      subst this
+      exact ⟨rfl, rfl, rfl, rfl, rfl, rfl, rfl⟩
+    · rw [if_neg e] at hs'; subst hs'
+      exact ⟨rfl, rfl, rfl, rfl, rfl, rfl, rfl⟩
+
+theorem serverPut_app_ne {c c' : Cell} {aid sid x : Nat} {l0 b : Bool} (h : serverPut c aid sid l0 = .ok (c', b))
+    (hx : x ≠ aid) : c'.app? x = c.app? x := by
+  rcases serverPut_shape h with ⟨_, rfl⟩ | ⟨_, a, s, anc, ha, _, _, _, _, _, happs, _⟩
+  · rfl
+  · exact app?_upd_ne happs (by show x ≠ a.id; rw [app?_id ha]; exact hx)
+
+theorem serverPut_srv {c c' : Cell} {aid sid k : Nat} {l0 b : Bool} (h : serverPut c aid sid l0 = .ok (c', b)) :
+    ∀ s', c'.srv? k = some s' → ∃ s0, c.srv? k = some s0 ∧ s'.id = s0.id ∧ s'.label = s0.label ∧
+      s'.traits = s0.traits ∧ s'.state = s0.state ∧ s'.since = s0.since ∧ s'.validUntil = s0.validUntil ∧
+      s'.init = s0.init := by
+  rcases serverPut_shape h with ⟨_, rfl⟩ | ⟨_, a, s, anc, _, hs, _, _, _, _, _, hsrvs, _⟩
+  · intro s' hs'; exact ⟨s', hs', rfl, rfl, rfl, rfl, rfl, rfl, rfl⟩
+  · intro s' hs'
+    rw [srv?_of_srvs hsrvs] at hs'
+    cases hk : c.srv? k with
+    | none => rw [hk] at hs'; cases hs'
+    | some s0 =>
+      rw [hk] at hs'
+      simp only [Option.map_some, Option.some.injEq] at hs'
+      refine ⟨s0, rfl, ?_⟩
+      by_cases e : s0.id = (putSrv s a).id
+      · rw [if_pos e] at hs'; subst hs'
+        have : s0 = s := by
+          have h1 := srv?_id hk
+          have h2 := srv?_id hs
+          have e' : s0.id = s.id := e
+          have hkk : k = sid := by rw [← h1, e', h2]
+          subst hkk; rw [hk] at hs; exact Option.some.inj hs
+        subst this
+        exact ⟨rfl, rfl, rfl, rfl, rfl, rfl, rfl⟩
+      · rw [if_neg e] at hs'; subst hs'
+        exact ⟨rfl, rfl, rfl, rfl, rfl, rfl, rfl⟩
 
 end TmVerif.Sched
